@@ -161,7 +161,11 @@ RowOK(r, o) ==
 
 Modes      == {"ldaps", "starttls"}
 Connectors == {"custom", "default"}
-Cfgs == [mode : Modes, verify : BOOLEAN, connector : Connectors, timeout : Timeouts]
+(* via: how the transport comes about and how the settings object was built - the library dials the URL; or the caller hands in a
+   connected TcpStream with set_std_stream() as the last ("stream-last") or the first ("stream-first") setter of the chain.  The
+   machine does not depend on it: what was requested must hold whichever way the settings were assembled. *)
+Vias == {"dial", "stream-last", "stream-first"}
+Cfgs == [mode : Modes, verify : BOOLEAN, connector : Connectors, timeout : Timeouts, via : Vias]
 
 Certs == {"trusted", "untrusted", "wrongName"}
 (* what the server does with the StartTLS request *)
